@@ -141,7 +141,9 @@ func runOneMutant(m Mutant, repo string, self string) MutantResult {
 			return res
 		}
 	}
-	env := append(os.Environ(), "GOFLAGS=-mod=mod", "GOPROXY=off", "GOSUMDB=off", "GOTOOLCHAIN=local", "GOWORK=off")
+	// -trimpath: the scratch copies then share build-cache entries (without it every copy adds its own
+	// full set of objects to the cache, which filled the disk once)
+	env := append(os.Environ(), "GOFLAGS=-mod=mod -trimpath", "GOPROXY=off", "GOSUMDB=off", "GOTOOLCHAIN=local", "GOWORK=off")
 	bld := exec.Command("go", "build", "./...")
 	bld.Dir = dir
 	bld.Env = env
